@@ -1,9 +1,10 @@
 #!/bin/bash
-# The repository's own suite with the verif guard OFF (no build tag).
+# The repository's stable baseline (the 109 tests of BASELINE.json: packages pkg/... of the root module and
+# the client module) with the verif guard OFF (no build tag). test/e2e needs a live cluster and is not part
+# of the baseline.
 set -u
 export GOFLAGS=-mod=mod GOPROXY=off GOSUMDB=off GOTOOLCHAIN=local
 rc=0
-for m in . client; do
-  (cd /repo/$m && go test -vet=off -count=1 -timeout 25m ./...) || rc=1
-done
+(cd /repo && go test -vet=off -count=1 -timeout 25m ./pkg/...) || rc=1
+(cd /repo/client && go test -vet=off -count=1 -timeout 25m ./...) || rc=1
 exit $rc
